@@ -29,12 +29,12 @@ def write_cfg(path, consts, spec, invariants=(), view=None, constraint=None, ext
         f.write(extra)
 
 
-def mc(run, module, consts, invariants, name, workers=4, timeout=900, spec="Spec", constraint=None):
+def mc(run, module, consts, invariants, name, workers=4, timeout=900, spec="Spec", constraint=None, extra=""):
     """exhaustive model checking of the base spec; an invariant violation here is a defect of the
     specification itself (tool error), never of the implementation"""
     d = workdir("cfg-" + name)
     cfg = os.path.join(d, name + ".cfg")
-    write_cfg(cfg, consts, spec, invariants, constraint=constraint)
+    write_cfg(cfg, consts, spec, invariants, constraint=constraint, extra=extra)
     r = tlc(os.path.join(SPEC, module), cfg, workers=workers, timeout=timeout, name=name, coverage=True)
     require_tlc_ok(r, "model checking " + name)
     run.add_tlc(r)
